@@ -1,48 +1,74 @@
 package main
 
-// Translator table ActionDecisions: the DATA conditions of the release operations, read out
+// Translator table ActionDecisions: the DATA decisions of the release operations, read out
 // of /repo's Go source with go/ast on every check run (coq/Gen/ActionDecisions.v).
 //
 // The effect skeleton (gentables_skel.go) abstracts every condition that is neither an option
-// flag nor an error test to CData.  This table is its complement: for every tracked function
-// (decTracked) each branch condition -- `if`, `for` condition, `switch` case, the result of a
-// small predicate function, the body of a filter closure -- is translated, in SOURCE ORDER,
-// into a small expression language (dexp, coq/Engine/Decisions.v) over variables named by a
-// NORMALISED ACCESS PATH ("Last.status", "len(History)", "revsorted(History)[0].status",
-// "len(arg2)", "each(sorted(History)).version") and the constants of pkg/release/v1 (status,
-// hook event, delete policy, resolved to their string values).  Conditions made only of
-// option flags and error tests are dropped (they belong to the skeleton); everything else is
-// a SITE.  What the translator does not understand becomes `DUnknown "<source text>"`, which
-// the interpreter cannot evaluate, so no equivalence obligation accepts it.
+// flag nor an error test to CData.  This table is its complement.  For every tracked function
+// (decTracked) the body is walked once and every GUARDED ITEM -- a `return` (identified by the
+// error it returns), a call (identified by its callee and constant arguments), an `append`
+// to a collection, an assignment to a field, a `break` -- is listed with its PATH CONDITION:
+// the conjunction of the conditions of the enclosing `if` / `switch` / `for`, negated for
+// else-branches and for the guards of preceding statements that leave the block (early
+// `return`, `continue`, `break`).  Items with the same key are merged by disjunction.  So
+//     if A { if B { X } }      if A && B { X }      if !(A && B) { continue }; X
+//     if !A { Y } else { X }   switch { case !A: Y; default: X }
+// all give X the same path condition up to logical equivalence, and the number, nesting and
+// polarity of the syntactic conditions do not matter.  Predicates (the body of a filter
+// closure, the test of a search loop / slices.ContainsFunc / slices.Contains, a boolean
+// function: the condition under which it returns true) are items of their own.
+//
+// Conditions are expressions of a small language (dexp, coq/Engine/Decisions.v) over
+// variables named by a NORMALISED ACCESS PATH ("Last.status", "len(History)",
+// "revsorted(History)[0].status", "len(arg2)", "each(sorted(History)).version"), option flags,
+// error answers of calls, nil tests, and the constants of pkg/release/v1 resolved to their
+// string values.  A boolean expression the translator cannot read becomes an opaque atom
+// `DOpaque "text"` (an unconstrained boolean: a condition that mentions one is equivalent to
+// a model condition only if it does not depend on it, or the model names it as an
+// assumption); anything else unreadable becomes `DUnknown`, which does not evaluate.
 //
 // The obligation (coq/Engine/DecisionsProofs.v, coq/Props/Decisions.v) is semantic: for every
-// site the interpretation of the extracted expression equals the model's condition at the
-// corresponding branch of Engine/Ops.v for ALL environments, so `a == X || a == Y` may become
-// a switch, operands may be swapped, a condition may be hoisted into a local or a local
-// renamed -- but any change of meaning breaks a proof on every run.
+// item the model lists for a function, the Go source has an item with that key and its path
+// condition evaluates, FOR ALL environments that meet the function's stated assumptions, to
+// the path condition of the corresponding branch of the model (Engine/Ops.v).
 //
-// Normalisation of names (so that renaming locals does not change the table):
+// Normalisation (so that behaviour-preserving rewrites do not change the meaning):
 //   * a local assigned in one block only is replaced by (the translation of) its defining
-//     expression, in source order (`st := rel.Info.Status` => "….status"); a local assigned
-//     in several blocks keeps its own name;
+//     expression, in source order (`st := rel.Info.Status`; `found := a == b`);
+//   * a local assigned in several blocks whose values are boolean / integer expressions is
+//     replaced by the conditional expression of its assignments (`ok := false; if A { ok =
+//     true }` reads A; `v := r.Version; if v == 0 { v = cur.Version - 1 }` reads
+//     `if opt.Version == 0 then Last.version - 1 else opt.Version`); other locals assigned
+//     in several blocks keep their own name;
 //   * the results of a call are named after the callee: `h, err := i.cfg.Releases.History(n)`
 //     binds h to the path "History" and err to the error source "History";
 //   * `releaseutil.Reverse(x, releaseutil.SortByRevision)` / `SortByRevision(x)` /
-//     `sort.Stable(hookByWeight(x))` rename x to revsorted(x) / sorted(x) / byweight(x) from
-//     that statement on, so WHICH element `x[0]` selects is part of the variable name;
-//   * parameters are arg1, arg2, … (the receiver is dropped; a receiver of a data type is
-//     "recv"), parameters of a closure it / it1, it2, range variables idx(p) / each(p).
+//     `sort.Stable(hookByWeight(x))` rename x to revsorted(x) / sorted(x) / hookByWeight(x);
+//   * a search loop `found := false; for _, e := range xs { …; if P(e) { found = true; break } }`,
+//     `slices.ContainsFunc(xs, func(e) bool { return P(e) })`, `slices.Contains(xs, v)`,
+//     `slices.IndexFunc(xs, f) >= 0` and `for … { if P(e) { return true } }; return false` all
+//     read as the boolean variable any(xs) plus the predicate item "pred any(xs)" = P(each(xs));
+//   * a call of a function of the same package that is not tracked itself is inlined (depth
+//     2): its items are listed under the caller with the parameters replaced by the caller's
+//     arguments, its result is named by what it returns, a boolean helper reads as its body;
+//   * parameters are arg1, arg2, … (the receiver of an action is dropped; a receiver of a
+//     data type is "recv"), parameters of a closure it / it1, it2, range variables idx(p) /
+//     each(p).
 //
-// TRUSTED: that the translator prints what it read; the classification tables below (which
-// receiver fields are data, which callees are predicates / path functions); the name
-// normalisation above (documented in notes/DEC.md together with what it cannot see).
+// TRUSTED: that the translator prints what it read; the classification tables below; the
+// normalisation above and the path-condition calculus (documented in notes/DEC.md together
+// with what it cannot see).
 
 import (
 	"bytes"
 	"fmt"
 	"go/ast"
+	"go/parser"
 	"go/printer"
 	"go/token"
+	"os"
+	"path/filepath"
+	"sort"
 	"strconv"
 	"strings"
 
@@ -75,8 +101,8 @@ var decTracked = []struct {
 	{"pkg/release/util/sorter.go", []string{"ByRevision.Less"}},
 }
 
-// receiver types whose fields are OPTIONS of an action (conditions over them alone are the
-// skeleton's business); the fields listed in decDataFields are data all the same
+// receiver types whose fields are OPTIONS of an action; the fields listed in decDataFields
+// are data all the same
 var decActionRecv = map[string]bool{"Install": true, "Upgrade": true, "Rollback": true, "Uninstall": true,
 	"History": true, "Configuration": true}
 
@@ -94,7 +120,7 @@ var decTypeOf = map[string]string{"int": "TN", "int64": "TN", "string": "TStr", 
 	"HookEvent": "TE", "HookDeletePolicy": "TP"}
 
 // predicates of the model called in conditions: they read as a boolean variable named by
-// the call with normalised arguments
+// the call with normalised arguments (their bodies are tracked functions of their own)
 var decPredicates = map[string]bool{"hookHasDeletePolicy": true, "hookHasOutputLogPolicy": true}
 
 // pure functions that stay part of the access path
@@ -102,6 +128,15 @@ var decPathFuncs = map[string]bool{"ToLower": true, "TrimSpace": true}
 
 // in-place reorderings: callee (last name) -> wrapper of the path of the first argument
 var decSorters = map[string]string{"SortByRevision": "sorted"}
+
+// packages whose calls are never items (logging, formatting, pure helpers)
+var decQuietPkgs = map[string]bool{"slog": true, "log": true, "fmt": true, "strings": true, "errors": true, "time": true,
+	"helmtime": true, "bytes": true, "sort": true, "slices": true, "maps": true, "strconv": true, "filepath": true, "os": true, "io": true}
+
+// builtins and conversions that are never items
+var decQuietFuncs = map[string]bool{"len": true, "cap": true, "append": true, "make": true, "new": true, "copy": true,
+	"delete": true, "panic": true, "min": true, "max": true, "string": true, "int": true, "int64": true, "error": true,
+	"bool": true, "byte": true, "close": true, "print": true, "println": true}
 
 type decConsts struct {
 	status, event, policy map[string]string // Go constant name -> value
@@ -111,15 +146,43 @@ type decConsts struct {
 // ---- expressions ---------------------------------------------------------------------------
 
 type dx struct {
-	op string // Var Flag Err ErrIs Nil Status Event Policy Int Str Bool Eq Ne Lt Le Gt Ge Add Sub And Or Not IsPending In If Unknown
+	op string // Var Flag Err ErrIs Nil Opaque Status Event Policy Int Str Bool Eq Ne Lt Le Gt Ge Add Sub And Or Not IsPending In If Unknown
 	ty string // of Var: TB TS TN TE TP TStr, "" = not yet known
 	s  string
 	s2 string
 	n  int64
 	a  []*dx
+	e  ast.Expr // of Unknown: the source expression (for the name of an opaque atom)
 }
 
 func dUnknown(s string) *dx { return &dx{op: "Unknown", s: s} }
+func dTrue() *dx            { return &dx{op: "Bool", s: "true"} }
+func dNot(d *dx) *dx {
+	if d.op == "Not" {
+		return d.a[0]
+	}
+	return &dx{op: "Not", a: []*dx{d}}
+}
+func dAnd(l []*dx) *dx {
+	if len(l) == 0 {
+		return dTrue()
+	}
+	r := l[0]
+	for _, x := range l[1:] {
+		r = &dx{op: "And", a: []*dx{r, x}}
+	}
+	return r
+}
+func dOr(l []*dx) *dx {
+	if len(l) == 0 {
+		return &dx{op: "Bool", s: "false"}
+	}
+	r := l[0]
+	for _, x := range l[1:] {
+		r = &dx{op: "Or", a: []*dx{r, x}}
+	}
+	return r
+}
 
 func (d *dx) coq() string {
 	q := hx.CoqStr
@@ -138,6 +201,8 @@ func (d *dx) coq() string {
 		return "(DErrIs " + q(d.s) + " " + q(d.s2) + ")"
 	case "Nil":
 		return "(DNil " + q(d.s) + ")"
+	case "Opaque":
+		return "(DOpaque " + q(d.s) + ")"
 	case "Status":
 		return "(DStatus " + q(d.s) + ")"
 	case "Event":
@@ -184,24 +249,10 @@ func (d *dx) typeOf() string {
 		return "TStr"
 	case "Unknown":
 		return ""
+	case "If":
+		return d.a[1].typeOf()
 	}
 	return "TB"
-}
-
-// hasData: does the condition test anything besides option flags and errors?
-func (d *dx) hasData() bool {
-	switch d.op {
-	case "Flag", "Err", "ErrIs", "Bool":
-		return false
-	case "Var", "Nil", "Unknown", "Status", "Event", "Policy", "Int", "Str":
-		return true
-	}
-	for _, x := range d.a {
-		if x.hasData() {
-			return true
-		}
-	}
-	return false
 }
 
 // ---- per-function state --------------------------------------------------------------------
@@ -213,21 +264,41 @@ type decBinding struct {
 	flag   string // or: reads as an option (comma-ok of a type assertion)
 }
 
-type decSite struct {
-	kind string
+// a local assigned in several blocks: its assignments, in order, each with the path
+// condition (relative to the declaration) under which it happened
+type decValSet struct {
+	declPC int
+	depth  int
+	vals   []*dx
+	conds  [][]*dx
+	dead   bool
+}
+
+type decItem struct {
+	key  string
 	line int
-	exp  *dx
+	alts []*dx // path conditions of the occurrences (disjunction); for a predicate: one expression
 }
 
 type decFn struct {
 	fset     *token.FileSet
 	consts   *decConsts
-	fields   map[string]map[string]string // struct type -> field -> type name
-	recv     string                       // receiver identifier ("" = none)
+	pkg      *decPkg
+	recv     string // receiver identifier ("" = none)
 	recvType string
 	env      map[string]*decBinding
 	unstable map[string]bool
-	sites    []decSite
+	vs       map[string]*decValSet
+	boolZero map[string]bool // locals currently known to be `false` (candidates of a search loop)
+	items    *[]*decItem
+	prefix   string // key prefix (inside a closure / an inlined helper)
+	depth    int    // loop depth
+	brk      []string
+	inline   int
+	noRet    bool     // inlined helper: returns are not items of the caller
+	retPaths []string // inlined helper: what it returns
+	results  *ast.FieldList
+	anyN     map[string]int
 }
 
 func (f *decFn) text(n ast.Node) string {
@@ -500,11 +571,21 @@ func asBool(d *dx) *dx {
 	if d.op == "Var" && d.ty == "" {
 		d.ty = "TB"
 	}
+	if d.op == "Unknown" { // an unreadable condition: an opaque boolean atom
+		d.op = "Opaque"
+	}
 	return d
 }
 
+// cond: an expression in the position of a condition
+func (f *decFn) cond(e ast.Expr) *dx { return asBool(f.tr(e)) }
+
 func (f *decFn) tr(e ast.Expr) *dx {
 	d := f.tr0(e)
+	if d.op == "Unknown" && d.e == nil {
+		d.e = e
+		d.s = f.opaqueName(e)
+	}
 	switch d.op {
 	case "Not", "And", "Or":
 		for _, x := range d.a {
@@ -559,6 +640,9 @@ func (f *decFn) tr0(e ast.Expr) *dx {
 	case *ast.Ident:
 		if v.Name == "true" || v.Name == "false" {
 			return &dx{op: "Bool", s: v.Name}
+		}
+		if vs := f.vs[v.Name]; vs != nil && !vs.dead && vs.vals[0].typeOf() == "TB" {
+			return vs.expr()
 		}
 		if b := f.env[v.Name]; b != nil && !f.unstable[v.Name] {
 			switch {
@@ -623,11 +707,17 @@ func (f *decFn) tr0(e ast.Expr) *dx {
 				return dUnknown(f.text(e))
 			}
 		}
+		if d := f.indexCompare(v); d != nil {
+			return d
+		}
 		a, b := f.tr(v.X), f.tr(v.Y)
 		switch op {
 		case "Eq", "Ne", "Lt", "Le", "Gt", "Ge":
 			unify(a, b)
 		case "Add", "Sub":
+			if a.typeOf() == "TStr" || b.typeOf() == "TStr" {
+				return dUnknown(f.text(e))
+			}
 			if a.op == "Var" && a.ty == "" {
 				a.ty = "TN"
 			}
@@ -699,43 +789,360 @@ func (f *decFn) tr0(e ast.Expr) *dx {
 				return &dx{op: "Var", s: p, ty: "TStr"}
 			}
 		}
+		if d := f.searchCall(v); d != nil {
+			return d
+		}
+		if d := f.inlinePredicate(v); d != nil {
+			return d
+		}
 		return dUnknown(f.text(e))
 	}
 	return dUnknown(f.text(e))
 }
 
+// opaqueName: a stable name for a condition the translator cannot read: a call is named by
+// its callee and the paths of its arguments, anything else by its text without the receiver
+func (f *decFn) opaqueName(e ast.Expr) string {
+	if c, ok := e.(*ast.CallExpr); ok {
+		if k := f.itemCallee(c); k != "" {
+			args := make([]string, len(c.Args))
+			for i, a := range c.Args {
+				if p, ok := f.path(a); ok && p != "" {
+					args[i] = p
+				} else {
+					args[i] = f.text(a)
+				}
+			}
+			return k + "(" + strings.Join(args, ",") + ")"
+		}
+	}
+	t := f.text(e)
+	if f.recv != "" {
+		t = strings.ReplaceAll(t, f.recv+".", "")
+	}
+	return t
+}
+
 // ---- statements ----------------------------------------------------------------------------
 
-func (f *decFn) site(kind string, pos token.Pos, d *dx) {
-	asBool(d)
-	if d.hasData() {
-		f.sites = append(f.sites, decSite{kind, f.fset.Position(pos).Line, d})
+// ---- value sets ----------------------------------------------------------------------------
+
+// expr: the value of the local as a conditional expression of its assignments (a later
+// assignment overrides the earlier ones on the paths where it happened)
+func (vs *decValSet) expr() *dx {
+	e := vs.vals[0]
+	for i := 1; i < len(vs.vals); i++ {
+		c := *vs.vals[i]
+		e = &dx{op: "If", a: []*dx{dAnd(vs.conds[i]), &c, e}}
+	}
+	if len(vs.vals) == 1 {
+		c := *e
+		return &c
+	}
+	return e
+}
+
+func isValue(d *dx) bool {
+	switch d.typeOf() {
+	case "TB", "TN":
+		return d.op != "Unknown" && d.op != "Opaque"
+	}
+	return false
+}
+
+// noteValue: name (assigned in several blocks) is assigned d under pc
+func (f *decFn) noteValue(name string, d *dx, pc []*dx) {
+	vs := f.vs[name]
+	if vs == nil {
+		if d == nil || !isValue(d) {
+			f.vs[name] = &decValSet{dead: true}
+			return
+		}
+		f.vs[name] = &decValSet{declPC: len(pc), depth: f.depth, vals: []*dx{d}, conds: [][]*dx{nil}}
+		return
+	}
+	if vs.dead {
+		return
+	}
+	if d == nil || !isValue(d) || vs.depth != f.depth || len(pc) < vs.declPC || d.typeOf() != vs.vals[0].typeOf() {
+		vs.dead = true
+		return
+	}
+	vs.vals = append(vs.vals, d)
+	vs.conds = append(vs.conds, append([]*dx{}, pc[vs.declPC:]...))
+}
+
+// ---- items ---------------------------------------------------------------------------------
+
+func (f *decFn) addItem(key string, pos token.Pos, d *dx) {
+	key = f.prefix + key
+	for _, it := range *f.items {
+		if it.key == key {
+			it.alts = append(it.alts, d)
+			return
+		}
+	}
+	*f.items = append(*f.items, &decItem{key: key, line: f.fset.Position(pos).Line, alts: []*dx{d}})
+}
+
+// predicate items: the same search over the same collection twice gets a number
+func (f *decFn) addPred(coll string, pos token.Pos, p *dx) string {
+	name := "any(" + coll + ")"
+	for _, it := range *f.items {
+		if it.key == f.prefix+"pred "+name && len(it.alts) == 1 && it.alts[0].coq() == p.coq() {
+			return name
+		}
+	}
+	f.anyN[coll]++
+	if n := f.anyN[coll]; n > 1 {
+		name = fmt.Sprintf("any(%s)#%d", coll, n)
+	}
+	*f.items = append(*f.items, &decItem{key: f.prefix + "pred " + name, line: f.fset.Position(pos).Line, alts: []*dx{p}})
+	return name
+}
+
+// itemCallee: the name of a callee as an item key ("" = not an item)
+func (f *decFn) itemCallee(c *ast.CallExpr) string {
+	var parts []string
+	var root ast.Expr = c.Fun
+	for {
+		switch v := root.(type) {
+		case *ast.SelectorExpr:
+			parts = append([]string{v.Sel.Name}, parts...)
+			root = v.X
+			continue
+		case *ast.ParenExpr:
+			root = v.X
+			continue
+		case *ast.TypeAssertExpr:
+			root = v.X
+			continue
+		case *ast.CallExpr: // FilterFunc(f).Filter(x): named by the outer callee
+			if inner := f.itemCallee(v); inner != "" {
+				return inner + "." + strings.Join(parts, ".")
+			}
+			return strings.Join(parts, ".")
+		}
+		break
+	}
+	id, ok := root.(*ast.Ident)
+	if !ok {
+		return ""
+	}
+	if n := len(parts); n > 0 {
+		switch parts[n-1] {
+		case "IsPending", "Error", "String", "Len", "WriteString":
+			return "" // pure methods of data
+		}
+		if _, isFlag := decFlagMethods[parts[n-1]]; isFlag {
+			return ""
+		}
+	}
+	if len(parts) == 0 {
+		if decQuietFuncs[id.Name] {
+			return ""
+		}
+		return id.Name
+	}
+	switch {
+	case f.recv != "" && id.Name == f.recv:
+		if len(parts) > 1 && parts[0] == "cfg" {
+			parts = parts[1:]
+		}
+		return strings.Join(parts, ".")
+	case f.env[id.Name] != nil || f.unstable[id.Name] || id.Obj != nil:
+		b := f.env[id.Name]
+		if b != nil && b.path != "" && !f.unstable[id.Name] {
+			return b.path + "." + strings.Join(parts, ".")
+		}
+		return id.Name + "." + strings.Join(parts, ".")
+	default: // a package
+		if decQuietPkgs[id.Name] {
+			return ""
+		}
+		return strings.Join(parts, ".")
 	}
 }
 
-func (f *decFn) bindCallResults(lhs []ast.Expr, call *ast.CallExpr) {
+// calls: every call below n (closures excepted) is an item at pc; constant arguments
+// (status, hook event, delete policy) are part of the key
+func (f *decFn) calls(n ast.Node, pc []*dx) {
+	if n == nil {
+		return
+	}
+	ast.Inspect(n, func(x ast.Node) bool {
+		switch v := x.(type) {
+		case *ast.FuncLit:
+			return false
+		case *ast.CallExpr:
+			k := f.itemCallee(v)
+			if k == "" {
+				return true
+			}
+			var cs []string
+			for _, a := range v.Args {
+				if c := f.constOf(a); c != nil && c.op != "Str" {
+					cs = append(cs, c.s)
+				}
+			}
+			if len(cs) > 0 {
+				k += "(" + strings.Join(cs, ",") + ")"
+			}
+			f.addItem("call "+k, v.Pos(), dAnd(pc))
+		}
+		return true
+	})
+}
+
+// errIdent: the error source of the first error variable mentioned below n
+func (f *decFn) errIdent(n ast.Node) string {
+	src := ""
+	ast.Inspect(n, func(x ast.Node) bool {
+		if src != "" {
+			return false
+		}
+		if _, ok := x.(*ast.FuncLit); ok {
+			return false
+		}
+		if id, ok := x.(*ast.Ident); ok {
+			if b := f.env[id.Name]; b != nil && b.errSrc != "" && b.path == "" && b.exp == nil {
+				src = b.errSrc
+			}
+		}
+		return true
+	})
+	return src
+}
+
+func firstStringLit(n ast.Node) string {
+	lit := ""
+	ast.Inspect(n, func(x ast.Node) bool {
+		if lit != "" {
+			return false
+		}
+		if bl, ok := x.(*ast.BasicLit); ok && bl.Kind == token.STRING {
+			if s, err := strconv.Unquote(bl.Value); err == nil && s != "" {
+				lit = s
+			}
+		}
+		return true
+	})
+	return lit
+}
+
+// retKeys: the items of a return statement: (key, extra condition) pairs
+func (f *decFn) ret(r *ast.ReturnStmt, pc []*dx) {
+	if f.noRet {
+		if len(r.Results) >= 1 {
+			if p, ok := f.path(r.Results[0]); ok && p != "" {
+				f.retPaths = append(f.retPaths, p)
+			} else {
+				f.retPaths = append(f.retPaths, "?")
+			}
+		}
+		return
+	}
+	if len(r.Results) == 0 {
+		f.addItem("ret", r.Pos(), dAnd(pc))
+		return
+	}
+	last := r.Results[len(r.Results)-1]
+	resType := ""
+	if f.results != nil && len(f.results.List) > 0 {
+		resType = lastTypeName(f.results.List[len(f.results.List)-1].Type)
+	}
+	switch {
+	case resType == "bool" && len(r.Results) == 1:
+		d := f.cond(last)
+		switch {
+		case d.op == "Bool":
+			f.addItem("ret "+d.s, r.Pos(), dAnd(pc))
+		default:
+			f.addItem("ret true", r.Pos(), dAnd(append(append([]*dx{}, pc...), d)))
+			f.addItem("ret false", r.Pos(), dAnd(append(append([]*dx{}, pc...), dNot(d))))
+		}
+	case resType == "error" || resType == "[]error":
+		key := ""
+		switch v := last.(type) {
+		case *ast.Ident:
+			switch {
+			case v.Name == "nil":
+				key = "ok"
+			case f.env[v.Name] != nil && f.env[v.Name].errSrc != "":
+				key = "err(" + f.env[v.Name].errSrc + ")"
+			default:
+				key = v.Name
+			}
+		case *ast.SelectorExpr:
+			key = f.text(v)
+		default:
+			src := f.errIdent(last)
+			lit := firstStringLit(last)
+			if c, ok := last.(*ast.CallExpr); ok && src == "" && lit == "" {
+				if k := f.itemCallee(c); k != "" {
+					key = "call(" + k + ")"
+					break
+				}
+				key = "new(" + f.text(c.Fun) + ")"
+				break
+			}
+			if _, isCall := last.(*ast.CallExpr); !isCall && src == "" && lit == "" {
+				if p, ok := f.path(last); ok && p != "" {
+					key = "val(" + p + ")"
+				} else {
+					key = "val(" + f.text(last) + ")"
+				}
+				break
+			}
+			if src != "" {
+				key = "err(" + src + ")"
+			} else {
+				key = "new"
+			}
+			if lit != "" {
+				key += ":" + lit
+			}
+		}
+		f.addItem("ret "+key, r.Pos(), dAnd(pc))
+	default:
+		if p, ok := f.path(r.Results[0]); ok && p != "" {
+			f.addItem("ret "+p, r.Pos(), dAnd(pc))
+		} else {
+			f.addItem("ret", r.Pos(), dAnd(pc))
+		}
+	}
+}
+
+// ---- bindings ------------------------------------------------------------------------------
+
+func (f *decFn) bindCallResults(lhs []ast.Expr, call *ast.CallExpr, resultPath string) {
 	name := f.calleeName(call.Fun)
 	if name == "" {
 		name = f.text(call.Fun)
 	}
-	// x = append(x, …) is not a new value
 	if id, ok := call.Fun.(*ast.Ident); ok && id.Name == "append" {
-		return
+		return // x = append(x, …) is not a new value
 	}
 	p, isPath := f.path(call)
+	if resultPath != "" {
+		p, isPath = resultPath, true
+	}
 	for i, l := range lhs {
 		id, ok := l.(*ast.Ident)
 		if !ok || id.Name == "_" {
 			continue
 		}
+		delete(f.boolZero, id.Name)
 		switch {
 		case i == len(lhs)-1 && len(lhs) > 1:
 			f.env[id.Name] = &decBinding{errSrc: name}
 		case len(lhs) == 1:
-			// a single result: the error answer when nil-tested, the value otherwise
 			b := &decBinding{errSrc: name}
 			if isPath {
 				b.path = p
+			}
+			if resultPath != "" {
+				b.errSrc = ""
 			}
 			f.env[id.Name] = b
 		case i == 0:
@@ -750,15 +1157,84 @@ func (f *decFn) bindCallResults(lhs []ast.Expr, call *ast.CallExpr) {
 	}
 }
 
-func (f *decFn) assign(lhs, rhs []ast.Expr) {
+// isExprCall: a call that is translated as an expression, not bound as the result of a callee
+func (f *decFn) isExprCall(c *ast.CallExpr) bool {
+	name := f.calleeName(c.Fun)
+	last := name[strings.LastIndex(name, ".")+1:]
+	if name == "len" || decPathFuncs[last] {
+		return true
+	}
+	if se, ok := c.Fun.(*ast.SelectorExpr); ok {
+		if id, ok := se.X.(*ast.Ident); ok && id.Name == "slices" && f.env["slices"] == nil {
+			switch se.Sel.Name {
+			case "Contains", "ContainsFunc", "IndexFunc", "Index":
+				return true
+			}
+		}
+	}
+	if fd := f.helper(c); fd != nil && isBoolFunc(fd.Type) && f.inline < 2 {
+		return true
+	}
+	return false
+}
+
+func isBoolFunc(t *ast.FuncType) bool {
+	return t.Results != nil && len(t.Results.List) == 1 && len(t.Results.List[0].Names) <= 1 && lastTypeName(t.Results.List[0].Type) == "bool"
+}
+
+func (f *decFn) assign(lhs, rhs []ast.Expr, pc []*dx, pos token.Pos) {
+	// x = append(x, v): an item
+	if len(lhs) == 1 && len(rhs) == 1 {
+		if c, ok := rhs[0].(*ast.CallExpr); ok {
+			if id, ok := c.Fun.(*ast.Ident); ok && id.Name == "append" && len(c.Args) >= 2 {
+				tgt := f.text(lhs[0])
+				if p, ok := f.path(lhs[0]); ok && p != "" {
+					tgt = p
+				}
+				var els []string
+				for _, a := range c.Args[1:] {
+					if p, ok := f.path(a); ok && p != "" {
+						els = append(els, p)
+					} else if src := f.errIdent(a); src != "" {
+						els = append(els, "err("+src+")")
+					} else {
+						els = append(els, f.text(a))
+					}
+				}
+				f.addItem("append "+tgt+" "+strings.Join(els, ","), pos, dAnd(pc))
+				return
+			}
+		}
+	}
+	// assignments to fields are items
+	for i, l := range lhs {
+		if se, ok := l.(*ast.SelectorExpr); ok {
+			if p, ok := f.path(se); ok && p != "" {
+				key := "set " + p
+				if len(lhs) == len(rhs) {
+					if c := f.constOf(rhs[i]); c != nil {
+						key += " = " + c.s
+					} else if id, ok := rhs[i].(*ast.Ident); ok && (id.Name == "true" || id.Name == "false" || id.Name == "nil") {
+						key += " = " + id.Name
+					}
+				}
+				f.addItem(key, pos, dAnd(pc))
+			}
+		}
+	}
 	if len(rhs) == 1 {
 		switch r := rhs[0].(type) {
 		case *ast.CallExpr:
-			// conversions and path functions of one argument bind like plain expressions
-			name := f.calleeName(r.Fun)
-			last := name[strings.LastIndex(name, ".")+1:]
-			if !(len(lhs) == 1 && (decPathFuncs[last] || name == "len")) {
-				f.bindCallResults(lhs, r)
+			if fid, ok := r.Fun.(*ast.Ident); ok && (fid.Name == "make" || fid.Name == "new") && len(lhs) == 1 {
+				break // a fresh object: handled below
+			}
+			if !(len(lhs) == 1 && f.isExprCall(r)) {
+				f.bindCallResults(lhs, r, f.inlineHelper(r, pc))
+				for _, l := range lhs {
+					if id, ok := l.(*ast.Ident); ok && f.unstable[id.Name] {
+						f.noteValue(id.Name, nil, pc)
+					}
+				}
 				return
 			}
 		case *ast.TypeAssertExpr:
@@ -798,15 +1274,35 @@ func (f *decFn) assign(lhs, rhs []ast.Expr) {
 		if !ok || id.Name == "_" {
 			continue
 		}
-		switch rhs[i].(type) {
-		case *ast.CompositeLit, *ast.FuncLit, *ast.UnaryExpr:
-			if u, isU := rhs[i].(*ast.UnaryExpr); !isU || u.Op == token.AND {
-				delete(f.env, id.Name)
-				f.unstable[id.Name] = true // a fresh object: known by its own name
-				continue
+		delete(f.boolZero, id.Name)
+		fresh := false
+		switch v := rhs[i].(type) {
+		case *ast.CompositeLit, *ast.FuncLit:
+			fresh = true
+		case *ast.UnaryExpr:
+			fresh = v.Op == token.AND
+		case *ast.CallExpr:
+			if fid, ok := v.Fun.(*ast.Ident); ok && (fid.Name == "make" || fid.Name == "new") {
+				fresh = true
 			}
 		}
+		if fresh {
+			delete(f.env, id.Name)
+			f.unstable[id.Name] = true // a fresh object: known by its own name
+			f.noteValue(id.Name, nil, pc)
+			continue
+		}
 		d := f.tr(rhs[i])
+		if f.unstable[id.Name] {
+			f.noteValue(id.Name, d, pc)
+			if d.op == "Bool" && d.s == "false" {
+				f.boolZero[id.Name] = true
+			}
+			continue
+		}
+		if d.op == "Bool" && d.s == "false" {
+			f.boolZero[id.Name] = true
+		}
 		if d.op == "Unknown" {
 			if p, ok := f.path(rhs[i]); ok && p != "" {
 				f.env[id.Name] = &decBinding{path: p}
@@ -823,68 +1319,341 @@ func (f *decFn) assign(lhs, rhs []ast.Expr) {
 	}
 }
 
-// predicate result of a statement list: `return e` | `if c { return a }` rest | switch … rest
-func (f *decFn) result(stmts []ast.Stmt) *dx {
-	if len(stmts) == 0 {
+// ---- searches ------------------------------------------------------------------------------
+
+func (f *decFn) isPkg(e ast.Expr, name string) bool {
+	id, ok := e.(*ast.Ident)
+	return ok && id.Name == name && f.env[name] == nil && !f.unstable[name] && id.Obj == nil
+}
+
+// withParams: run fn with the parameters of a function literal bound to paths
+func (f *decFn) withParams(fl *ast.FuncLit, paths []string, fn func()) {
+	saved := map[string]*decBinding{}
+	var names []string
+	isErr := map[string]bool{}
+	for _, fld := range fl.Type.Params.List {
+		for _, nm := range fld.Names {
+			names = append(names, nm.Name)
+			isErr[nm.Name] = lastTypeName(fld.Type) == "error"
+		}
+	}
+	for i, nm := range names {
+		saved[nm] = f.env[nm]
+		p := "it"
+		if len(names) > 1 {
+			p = fmt.Sprintf("it%d", i+1)
+		}
+		if i < len(paths) && paths[i] != "" {
+			p = paths[i]
+		}
+		if isErr[nm] {
+			f.env[nm] = &decBinding{errSrc: p}
+		} else {
+			f.env[nm] = &decBinding{path: p}
+		}
+	}
+	fn()
+	for nm, b := range saved {
+		if b == nil {
+			delete(f.env, nm)
+		} else {
+			f.env[nm] = b
+		}
+	}
+}
+
+// predicateOf: the condition under which a body with a single boolean result returns true
+func (f *decFn) predicateOf(body []ast.Stmt, results *ast.FieldList) *dx {
+	var items []*decItem
+	sub := *f
+	sub.items = &items
+	sub.prefix = ""
+	sub.noRet = false
+	sub.results = results
+	sub.env = map[string]*decBinding{}
+	for k, v := range f.env {
+		sub.env[k] = v
+	}
+	sub.walk(body, nil)
+	for _, it := range items {
+		if it.key == "ret true" {
+			return dOr(it.alts)
+		}
+	}
+	return &dx{op: "Bool", s: "false"}
+}
+
+// searchCall: slices.Contains / slices.ContainsFunc read as any(xs) plus a predicate item
+func (f *decFn) searchCall(c *ast.CallExpr) *dx {
+	se, ok := c.Fun.(*ast.SelectorExpr)
+	if !ok || !f.isPkg(se.X, "slices") || len(c.Args) != 2 {
 		return nil
 	}
-	switch s := stmts[0].(type) {
-	case *ast.ReturnStmt:
-		if len(s.Results) == 1 {
-			return f.tr(s.Results[0])
+	xs, ok := f.path(c.Args[0])
+	if !ok || xs == "" {
+		return nil
+	}
+	switch se.Sel.Name {
+	case "Contains":
+		v := f.tr(c.Args[1])
+		el := &dx{op: "Var", s: "each(" + xs + ")"}
+		unify(el, v)
+		name := f.addPred(xs, c.Pos(), &dx{op: "Eq", a: []*dx{el, v}})
+		return &dx{op: "Var", ty: "TB", s: name}
+	case "ContainsFunc":
+		fl, ok := c.Args[1].(*ast.FuncLit)
+		if !ok || !isBoolFunc(fl.Type) {
+			return nil
 		}
-	case *ast.IfStmt:
-		if s.Init == nil {
-			th := f.result(s.Body.List)
-			var el *dx
-			if s.Else != nil {
-				if b, ok := s.Else.(*ast.BlockStmt); ok {
-					el = f.result(b.List)
-				} else {
-					el = f.result([]ast.Stmt{s.Else})
-				}
-			} else {
-				el = f.result(stmts[1:])
-			}
-			if th != nil && el != nil {
-				return &dx{op: "If", a: []*dx{f.tr(s.Cond), th, el}}
+		var p *dx
+		f.withParams(fl, []string{"each(" + xs + ")"}, func() { p = f.predicateOf(fl.Body.List, fl.Type.Results) })
+		name := f.addPred(xs, c.Pos(), p)
+		return &dx{op: "Var", ty: "TB", s: name}
+	}
+	return nil
+}
+
+// indexCompare: slices.IndexFunc(xs, f) >= 0 and friends
+func (f *decFn) indexCompare(b *ast.BinaryExpr) *dx {
+	call, lit, flip := b.X, b.Y, false
+	if _, ok := call.(*ast.CallExpr); !ok {
+		call, lit, flip = b.Y, b.X, true
+	}
+	c, ok := call.(*ast.CallExpr)
+	if !ok {
+		return nil
+	}
+	se, ok := c.Fun.(*ast.SelectorExpr)
+	if !ok || !f.isPkg(se.X, "slices") || (se.Sel.Name != "IndexFunc" && se.Sel.Name != "Index") || len(c.Args) != 2 {
+		return nil
+	}
+	n := int64(0)
+	switch v := lit.(type) {
+	case *ast.BasicLit:
+		n, _ = strconv.ParseInt(v.Value, 0, 64)
+	case *ast.UnaryExpr:
+		if bl, ok := v.X.(*ast.BasicLit); ok && v.Op == token.SUB {
+			n, _ = strconv.ParseInt(bl.Value, 0, 64)
+			n = -n
+		} else {
+			return nil
+		}
+	default:
+		return nil
+	}
+	op := b.Op
+	if flip {
+		switch op {
+		case token.LSS:
+			op = token.GTR
+		case token.GTR:
+			op = token.LSS
+		case token.LEQ:
+			op = token.GEQ
+		case token.GEQ:
+			op = token.LEQ
+		}
+	}
+	found, known := false, true
+	switch {
+	case op == token.GEQ && n == 0, op == token.GTR && n == -1, op == token.NEQ && n == -1:
+		found = true
+	case op == token.LSS && n == 0, op == token.LEQ && n == -1, op == token.EQL && n == -1:
+		found = false
+	default:
+		known = false
+	}
+	if !known {
+		return nil
+	}
+	fake := &ast.CallExpr{Fun: &ast.SelectorExpr{X: se.X, Sel: ast.NewIdent(map[string]string{"IndexFunc": "ContainsFunc", "Index": "Contains"}[se.Sel.Name])}, Args: c.Args, Lparen: c.Lparen}
+	d := f.searchCall(fake)
+	if d == nil {
+		return nil
+	}
+	if !found {
+		return dNot(d)
+	}
+	return d
+}
+
+// ---- helpers of the same package -----------------------------------------------------------
+
+type decPkg struct {
+	fset  *token.FileSet
+	funcs map[string]*ast.FuncDecl
+}
+
+var decPkgCache = map[string]*decPkg{}
+var decTrackedSet = map[string]bool{}
+
+func decLoadPkg(dir string) *decPkg {
+	if p, ok := decPkgCache[dir]; ok {
+		return p
+	}
+	p := &decPkg{fset: token.NewFileSet(), funcs: map[string]*ast.FuncDecl{}}
+	ents, _ := os.ReadDir(dir)
+	for _, e := range ents {
+		n := e.Name()
+		if e.IsDir() || !strings.HasSuffix(n, ".go") || strings.HasSuffix(n, "_test.go") || strings.HasPrefix(n, "zz_verif_") {
+			continue
+		}
+		file, err := parser.ParseFile(p.fset, filepath.Join(dir, n), nil, 0)
+		if err != nil {
+			continue
+		}
+		for _, d := range file.Decls {
+			if fd, ok := d.(*ast.FuncDecl); ok && fd.Body != nil {
+				p.funcs[decFuncKey(fd)] = fd
 			}
 		}
-	case *ast.SwitchStmt:
-		if s.Init == nil {
-			rest := f.result(stmts[1:])
-			var tag *dx
-			if s.Tag != nil {
-				tag = f.tr(s.Tag)
+	}
+	decPkgCache[dir] = p
+	return p
+}
+
+// helper: the declaration of the callee when it is an untracked function of the same package
+func (f *decFn) helper(c *ast.CallExpr) *ast.FuncDecl {
+	if f.pkg == nil {
+		return nil
+	}
+	key := ""
+	switch v := c.Fun.(type) {
+	case *ast.Ident:
+		if f.env[v.Name] != nil || f.unstable[v.Name] {
+			return nil
+		}
+		key = v.Name
+	case *ast.SelectorExpr:
+		if id, ok := v.X.(*ast.Ident); ok && f.recv != "" && id.Name == f.recv {
+			key = f.recvType + "." + v.Sel.Name
+		} else if se, ok := v.X.(*ast.SelectorExpr); ok && se.Sel.Name == "cfg" {
+			if id, ok := se.X.(*ast.Ident); ok && id.Name == f.recv {
+				key = "Configuration." + v.Sel.Name
 			}
-			var clauses []*ast.CaseClause
-			for _, c := range s.Body.List {
-				cc := c.(*ast.CaseClause)
-				if cc.List == nil {
-					rest = f.result(cc.Body) // default
-				} else {
-					clauses = append(clauses, cc)
+		}
+	}
+	if key == "" || decTrackedSet[key] {
+		return nil
+	}
+	if nm := key[strings.LastIndex(key, ".")+1:]; nm == "" || !(nm[0] >= 'a' && nm[0] <= 'z') {
+		return nil // exported functions are API: they keep their name
+	}
+	fd := f.pkg.funcs[key]
+	if fd == nil || len(fd.Type.Params.List) > 8 {
+		return nil
+	}
+	n := 0
+	for _, fld := range fd.Type.Params.List {
+		if _, variadic := fld.Type.(*ast.Ellipsis); variadic {
+			return nil
+		}
+		if len(fld.Names) == 0 {
+			return nil
+		}
+		n += len(fld.Names)
+	}
+	if n != len(c.Args) {
+		return nil
+	}
+	return fd
+}
+
+// child: the state for walking the body of a helper called with the arguments of c
+func (f *decFn) child(fd *ast.FuncDecl, c *ast.CallExpr) *decFn {
+	ch := &decFn{fset: f.pkg.fset, consts: f.consts, pkg: f.pkg, env: map[string]*decBinding{}, unstable: decUnstable(fd.Body),
+		vs: map[string]*decValSet{}, boolZero: map[string]bool{}, items: f.items, prefix: f.prefix, inline: f.inline + 1,
+		noRet: true, results: fd.Type.Results, anyN: f.anyN}
+	if fd.Recv != nil && len(fd.Recv.List[0].Names) == 1 {
+		ch.recv = fd.Recv.List[0].Names[0].Name
+		ch.recvType = lastTypeName(fd.Recv.List[0].Type)
+	}
+	i := 0
+	for _, fld := range fd.Type.Params.List {
+		for _, nm := range fld.Names {
+			arg := c.Args[i]
+			i++
+			var b *decBinding
+			if id, ok := arg.(*ast.Ident); ok && f.env[id.Name] != nil && !f.unstable[id.Name] {
+				cp := *f.env[id.Name]
+				b = &cp
+			} else if d := f.tr(arg); d.op != "Unknown" && d.op != "Opaque" {
+				b = &decBinding{exp: d}
+				if d.op == "Var" {
+					b.path = d.s
+				}
+			} else if p, ok := f.path(arg); ok && p != "" {
+				b = &decBinding{path: p}
+			}
+			if b != nil {
+				if b.exp != nil && b.exp.op == "Var" && b.exp.ty == "" {
+					if ty, ok := decTypeOf[lastTypeName(fld.Type)]; ok {
+						b.exp.ty = ty
+					}
+				}
+				ch.env[nm.Name] = b
+			}
+			delete(ch.unstable, nm.Name)
+		}
+	}
+	return ch
+}
+
+// inlineHelper: list the items of an untracked helper of the same package under the caller;
+// returns the path of what it returns ("" = unknown / not inlined)
+func (f *decFn) inlineHelper(c *ast.CallExpr, pc []*dx) string {
+	fd := f.helper(c)
+	if fd == nil || f.inline >= 2 || isBoolFunc(fd.Type) {
+		return ""
+	}
+	ch := f.child(fd, c)
+	ch.walk(fd.Body.List, pc)
+	if len(ch.retPaths) == 0 {
+		return ""
+	}
+	for _, p := range ch.retPaths[1:] {
+		if p != ch.retPaths[0] {
+			return ""
+		}
+	}
+	if ch.retPaths[0] == "?" {
+		return ""
+	}
+	return ch.retPaths[0]
+}
+
+// inlinePredicate: a boolean helper of the same package reads as its body
+func (f *decFn) inlinePredicate(c *ast.CallExpr) *dx {
+	fd := f.helper(c)
+	if fd == nil || f.inline >= 2 || !isBoolFunc(fd.Type) {
+		return nil
+	}
+	ch := f.child(fd, c)
+	var items []*decItem
+	ch.items = &items
+	ch.noRet = false
+	ch.walk(fd.Body.List, nil)
+	for _, it := range items {
+		if it.key == ch.prefix+"ret true" {
+			// predicate items found on the way (searches) belong to the caller
+			for _, o := range items {
+				if strings.HasPrefix(o.key, ch.prefix+"pred ") {
+					*f.items = append(*f.items, o)
 				}
 			}
-			out := rest
-			for i := len(clauses) - 1; i >= 0 && out != nil; i-- {
-				th := f.result(clauses[i].Body)
-				if th == nil {
-					return nil
-				}
-				out = &dx{op: "If", a: []*dx{f.caseCond(tag, clauses[i].List), th, out}}
-			}
-			return out
+			return dOr(it.alts)
 		}
 	}
 	return nil
 }
 
+// ---- statements ----------------------------------------------------------------------------
+
 func (f *decFn) caseCond(tag *dx, list []ast.Expr) *dx {
 	if tag == nil {
 		var c *dx
 		for _, e := range list {
-			d := f.tr(e)
+			d := f.cond(e)
 			if c == nil {
 				c = d
 			} else {
@@ -903,76 +1672,217 @@ func (f *decFn) caseCond(tag *dx, list []ast.Expr) *dx {
 	return &dx{op: "In", a: args}
 }
 
-// closures: the body of a func literal with a single boolean result is a site of its own
-func (f *decFn) closures(n ast.Node) {
+type decBranch struct {
+	end  []*dx
+	term bool
+}
+
+// join: the path condition after alternatives that together cover pc
+func join(pc []*dx, brs []decBranch) ([]*dx, bool) {
+	var live []decBranch
+	changed := false
+	for _, b := range brs {
+		if b.term {
+			changed = true
+			continue
+		}
+		live = append(live, b)
+		if len(b.end) != len(pc)+1 {
+			changed = true
+		}
+	}
+	if len(live) == 0 {
+		return pc, true
+	}
+	if !changed {
+		return pc, false
+	}
+	if len(live) == 1 {
+		return live[0].end, false
+	}
+	var alts []*dx
+	for _, b := range live {
+		alts = append(alts, dAnd(b.end[len(pc):]))
+	}
+	return append(append([]*dx{}, pc...), dOr(alts)), false
+}
+
+func ext(pc []*dx, d ...*dx) []*dx { return append(append([]*dx{}, pc...), d...) }
+
+// closures below n: a closure with a boolean result is a predicate item, any other one is
+// walked with its own keys
+func (f *decFn) closures(n ast.Node, pc []*dx) {
 	if n == nil {
 		return
 	}
-	ast.Inspect(n, func(x ast.Node) bool {
-		fl, ok := x.(*ast.FuncLit)
-		if !ok {
+	var walk func(x ast.Node, ctx string)
+	walk = func(x ast.Node, ctx string) {
+		ast.Inspect(x, func(y ast.Node) bool {
+			switch v := y.(type) {
+			case *ast.CallExpr:
+				// slices.ContainsFunc & co are translated where their value is used
+				if se, ok := v.Fun.(*ast.SelectorExpr); ok && f.isPkg(se.X, "slices") {
+					return false
+				}
+				sub := ctx
+				if sub == "" {
+					sub = f.itemCallee(v)
+				}
+				if se, ok := v.Fun.(*ast.SelectorExpr); ok && se.Sel.Name == "Filter" && len(v.Args) == 1 {
+					if p, ok := f.path(v.Args[0]); ok && p != "" {
+						sub = "filtered(" + p + ")"
+					}
+				}
+				walk(v.Fun, sub)
+				for _, a := range v.Args {
+					walk(a, sub)
+				}
+				return false
+			case *ast.FuncLit:
+				if isBoolFunc(v.Type) {
+					var p *dx
+					f.withParams(v, nil, func() { p = f.predicateOf(v.Body.List, v.Type.Results) })
+					key := "pred " + ctx
+					if ctx == "" {
+						key = "pred closure"
+					}
+					f.addItem(key, v.Pos(), p)
+				} else {
+					saved, savedRes, savedNoRet := f.prefix, f.results, f.noRet
+					f.prefix += "in closure(" + ctx + "): "
+					f.results = v.Type.Results
+					f.noRet = false
+					f.withParams(v, nil, func() { f.walk(v.Body.List, nil) })
+					f.prefix, f.results, f.noRet = saved, savedRes, savedNoRet
+				}
+				return false
+			}
 			return true
-		}
-		saved := map[string]*decBinding{}
-		var names []string
-		isErr := map[string]bool{}
-		for _, fld := range fl.Type.Params.List {
-			for _, nm := range fld.Names {
-				names = append(names, nm.Name)
-				isErr[nm.Name] = lastTypeName(fld.Type) == "error"
-			}
-		}
-		for i, nm := range names {
-			saved[nm] = f.env[nm]
-			p := "it"
-			if len(names) > 1 {
-				p = fmt.Sprintf("it%d", i+1)
-			}
-			if isErr[nm] {
-				f.env[nm] = &decBinding{errSrc: p}
-			} else {
-				f.env[nm] = &decBinding{path: p}
-			}
-		}
-		isPred := fl.Type.Results != nil && len(fl.Type.Results.List) == 1 && lastTypeName(fl.Type.Results.List[0].Type) == "bool"
-		if r := f.result(fl.Body.List); isPred && r != nil {
-			f.site("closure", fl.Pos(), r)
-		} else {
-			f.block(fl.Body.List)
-		}
-		for nm, b := range saved {
-			if b == nil {
-				delete(f.env, nm)
-			} else {
-				f.env[nm] = b
-			}
-		}
-		return false
-	})
-}
-
-func (f *decFn) block(stmts []ast.Stmt) {
-	for _, st := range stmts {
-		f.stmt(st)
+		})
 	}
+	walk(n, "")
 }
 
-func (f *decFn) stmt(st ast.Stmt) {
+// searchLoop: `for _, e := range xs { bindings…; if P { x = true; break } }` with x known to be
+// false, or `… if P { return true }` in a boolean function
+func (f *decFn) searchLoop(s *ast.RangeStmt, pc []*dx) (handled bool, after []*dx) {
+	xs, ok := f.path(s.X)
+	if !ok || xs == "" || len(s.Body.List) == 0 {
+		return false, nil
+	}
+	n := len(s.Body.List)
+	ifs, ok := s.Body.List[n-1].(*ast.IfStmt)
+	if !ok || ifs.Else != nil {
+		return false, nil
+	}
+	for _, st := range s.Body.List[:n-1] {
+		if as, ok := st.(*ast.AssignStmt); !ok || as.Tok != token.DEFINE {
+			return false, nil
+		}
+	}
+	flag, isRet := "", false
+	switch len(ifs.Body.List) {
+	case 1, 2:
+		switch b := ifs.Body.List[0].(type) {
+		case *ast.AssignStmt:
+			if len(b.Lhs) == 1 && len(b.Rhs) == 1 && b.Tok == token.ASSIGN {
+				if id, ok := b.Lhs[0].(*ast.Ident); ok && f.boolZero[id.Name] {
+					if v, ok := b.Rhs[0].(*ast.Ident); ok && v.Name == "true" {
+						flag = id.Name
+					}
+				}
+			}
+			if len(ifs.Body.List) == 2 {
+				if br, ok := ifs.Body.List[1].(*ast.BranchStmt); !ok || br.Tok != token.BREAK {
+					flag = ""
+				}
+			}
+		case *ast.ReturnStmt:
+			if len(ifs.Body.List) == 1 && len(b.Results) == 1 && f.results != nil && len(f.results.List) == 1 &&
+				lastTypeName(f.results.List[0].Type) == "bool" && !f.noRet {
+				if v, ok := b.Results[0].(*ast.Ident); ok && v.Name == "true" {
+					isRet = true
+				}
+			}
+		}
+	}
+	if flag == "" && !isRet {
+		return false, nil
+	}
+	if id, ok := s.Key.(*ast.Ident); ok && id.Name != "_" {
+		f.env[id.Name] = &decBinding{path: "idx(" + xs + ")"}
+	}
+	if id, ok := s.Value.(*ast.Ident); ok && id.Name != "_" {
+		f.env[id.Name] = &decBinding{path: "each(" + xs + ")"}
+	}
+	for _, st := range s.Body.List[:n-1] {
+		as := st.(*ast.AssignStmt)
+		f.assign(as.Lhs, as.Rhs, pc, as.Pos())
+	}
+	if ifs.Init != nil {
+		f.walk([]ast.Stmt{ifs.Init}, pc)
+	}
+	name := f.addPred(xs, ifs.Pos(), f.cond(ifs.Cond))
+	v := &dx{op: "Var", ty: "TB", s: name}
+	if flag != "" {
+		delete(f.unstable, flag)
+		delete(f.boolZero, flag)
+		if vs := f.vs[flag]; vs != nil {
+			delete(f.vs, flag)
+		}
+		f.env[flag] = &decBinding{exp: v}
+		return true, pc
+	}
+	f.addItem("ret true", ifs.Pos(), dAnd(ext(pc, v)))
+	return true, ext(pc, dNot(v))
+}
+
+// walk: the statements of a block under pc; returns the path condition at its end and
+// whether control cannot reach the end
+func (f *decFn) walk(stmts []ast.Stmt, pc []*dx) ([]*dx, bool) {
+	for _, st := range stmts {
+		var term bool
+		pc, term = f.stmt(st, pc)
+		if term {
+			return pc, true
+		}
+	}
+	return pc, false
+}
+
+func (f *decFn) stmt(st ast.Stmt, pc []*dx) ([]*dx, bool) {
 	switch s := st.(type) {
 	case nil:
 	case *ast.BlockStmt:
-		f.block(s.List)
+		return f.walk(s.List, pc)
+	case *ast.LabeledStmt:
+		return f.stmt(s.Stmt, pc)
 	case *ast.AssignStmt:
 		for _, r := range s.Rhs {
-			f.closures(r)
+			f.closures(r, pc)
+			f.calls(r, pc)
+		}
+		for _, l := range s.Lhs {
+			f.calls(l, pc)
 		}
 		if s.Tok == token.DEFINE || s.Tok == token.ASSIGN {
-			f.assign(s.Lhs, s.Rhs)
+			f.assign(s.Lhs, s.Rhs, pc, s.Pos())
 		} else {
 			for _, l := range s.Lhs {
 				if id, ok := l.(*ast.Ident); ok {
 					delete(f.env, id.Name)
+					delete(f.boolZero, id.Name)
+					if vs := f.vs[id.Name]; vs != nil {
+						vs.dead = true
+					}
 				}
+			}
+		}
+	case *ast.IncDecStmt:
+		if id, ok := s.X.(*ast.Ident); ok {
+			delete(f.env, id.Name)
+			if vs := f.vs[id.Name]; vs != nil {
+				vs.dead = true
 			}
 		}
 	case *ast.DeclStmt:
@@ -984,12 +1894,34 @@ func (f *decFn) stmt(st ast.Stmt) {
 					for i, n := range vs.Names {
 						lhs[i] = n
 					}
-					f.assign(lhs, vs.Values)
+					for _, v := range vs.Values {
+						f.closures(v, pc)
+						f.calls(v, pc)
+					}
+					f.assign(lhs, vs.Values, pc, s.Pos())
+					continue
+				}
+				// the zero value
+				for _, n := range vs.Names {
+					var zero *dx
+					switch lastTypeName(vs.Type) {
+					case "bool":
+						zero = &dx{op: "Bool", s: "false"}
+						f.boolZero[n.Name] = true
+					case "int", "int64":
+						zero = &dx{op: "Int", n: 0}
+					}
+					if f.unstable[n.Name] {
+						f.noteValue(n.Name, zero, pc)
+					} else if zero != nil {
+						f.env[n.Name] = &decBinding{exp: zero}
+					}
 				}
 			}
 		}
 	case *ast.ExprStmt:
-		f.closures(s.X)
+		f.closures(s.X, pc)
+		f.calls(s.X, pc)
 		if c, ok := s.X.(*ast.CallExpr); ok {
 			name := f.calleeName(c.Fun)
 			last := name[strings.LastIndex(name, ".")+1:]
@@ -998,7 +1930,8 @@ func (f *decFn) stmt(st ast.Stmt) {
 				if id, ok := c.Args[0].(*ast.Ident); ok {
 					if p, ok := f.path(id); ok {
 						w := "reversed"
-						if decSorters[f.calleeName(c.Args[1])[strings.LastIndex(f.calleeName(c.Args[1]), ".")+1:]] == "sorted" {
+						sn := f.calleeName(c.Args[1])
+						if decSorters[sn[strings.LastIndex(sn, ".")+1:]] == "sorted" {
 							w = "revsorted"
 						}
 						f.env[id.Name] = &decBinding{path: w + "(" + p + ")"}
@@ -1012,33 +1945,135 @@ func (f *decFn) stmt(st ast.Stmt) {
 						delete(f.unstable, id.Name)
 					}
 				}
-			case last == "Stable" || last == "Sort":
-				// sort.Stable(hookByWeight(x))
-				if len(c.Args) == 1 {
-					if conv, ok := c.Args[0].(*ast.CallExpr); ok && len(conv.Args) == 1 {
-						if id, ok := conv.Args[0].(*ast.Ident); ok {
-							if p, ok := f.path(id); ok {
-								f.env[id.Name] = &decBinding{path: f.calleeName(conv.Fun) + "(" + p + ")"}
-								delete(f.unstable, id.Name)
-							}
+			case (last == "Stable" || last == "Sort") && len(c.Args) == 1:
+				if conv, ok := c.Args[0].(*ast.CallExpr); ok && len(conv.Args) == 1 {
+					if id, ok := conv.Args[0].(*ast.Ident); ok {
+						if p, ok := f.path(id); ok {
+							f.env[id.Name] = &decBinding{path: f.calleeName(conv.Fun) + "(" + p + ")"}
+							delete(f.unstable, id.Name)
 						}
 					}
 				}
+			default:
+				f.inlineHelper(c, pc)
 			}
 		}
-	case *ast.IfStmt:
-		f.stmt(s.Init)
-		f.closures(s.Cond)
-		f.site("if", s.Cond.Pos(), f.tr(s.Cond))
-		f.block(s.Body.List)
-		f.stmt(s.Else)
-	case *ast.ForStmt:
-		f.stmt(s.Init)
-		if s.Cond != nil {
-			f.site("for", s.Cond.Pos(), f.tr(s.Cond))
+	case *ast.ReturnStmt:
+		for _, r := range s.Results {
+			f.closures(r, pc)
+			f.calls(r, pc)
 		}
-		f.block(s.Body.List)
+		f.ret(s, pc)
+		return pc, true
+	case *ast.BranchStmt:
+		switch s.Tok {
+		case token.BREAK:
+			if n := len(f.brk); n > 0 && f.brk[n-1] == "switch" {
+				return pc, true // leaves the clause; the switch goes on (joinSwitch treats it as live)
+			}
+			f.addItem("break", s.Pos(), dAnd(pc))
+			return pc, true
+		case token.CONTINUE:
+			return pc, true
+		default:
+			return ext(pc, &dx{op: "Opaque", s: s.Tok.String()}), false
+		}
+	case *ast.IfStmt:
+		if s.Init != nil {
+			pc, _ = f.stmt(s.Init, pc)
+		}
+		f.closures(s.Cond, pc)
+		f.calls(s.Cond, pc)
+		c := f.cond(s.Cond)
+		endT, termT := f.walk(s.Body.List, ext(pc, c))
+		endE, termE := ext(pc, dNot(c)), false
+		if s.Else != nil {
+			endE, termE = f.stmt(s.Else, ext(pc, dNot(c)))
+		}
+		return join(pc, []decBranch{{endT, termT}, {endE, termE}})
+	case *ast.SwitchStmt:
+		if s.Init != nil {
+			pc, _ = f.stmt(s.Init, pc)
+		}
+		var tag *dx
+		if s.Tag != nil {
+			f.calls(s.Tag, pc)
+			tag = f.tr(s.Tag)
+		}
+		var negs []*dx
+		var brs []decBranch
+		var def *ast.CaseClause
+		f.brk = append(f.brk, "switch")
+		for _, cl := range s.Body.List {
+			cc := cl.(*ast.CaseClause)
+			if cc.List == nil {
+				def = cc
+				continue
+			}
+			for _, e := range cc.List {
+				f.calls(e, pc)
+			}
+			c := f.caseCond(tag, cc.List)
+			start := ext(pc, dAnd(append(append([]*dx{}, negs...), c)))
+			end, term := f.walk(cc.Body, start)
+			if term && endsWithSwitchBreak(cc.Body) {
+				term = false
+			}
+			brs = append(brs, decBranch{end, term})
+			negs = append(negs, dNot(c))
+		}
+		start := ext(pc, dAnd(negs))
+		if def != nil {
+			end, term := f.walk(def.Body, start)
+			if term && endsWithSwitchBreak(def.Body) {
+				term = false
+			}
+			brs = append(brs, decBranch{end, term})
+		} else {
+			brs = append(brs, decBranch{start, false})
+		}
+		f.brk = f.brk[:len(f.brk)-1]
+		return join(pc, brs)
+	case *ast.TypeSwitchStmt:
+		f.brk = append(f.brk, "switch")
+		var brs []decBranch
+		for i, cl := range s.Body.List {
+			cc := cl.(*ast.CaseClause)
+			end, term := f.walk(cc.Body, ext(pc, &dx{op: "Opaque", s: fmt.Sprintf("type switch clause %d", i)}))
+			brs = append(brs, decBranch{end, term})
+		}
+		brs = append(brs, decBranch{ext(pc, &dx{op: "Opaque", s: "type switch: no clause"}), false})
+		f.brk = f.brk[:len(f.brk)-1]
+		return join(pc, brs)
+	case *ast.SelectStmt:
+		f.brk = append(f.brk, "switch")
+		var brs []decBranch
+		for i, cl := range s.Body.List {
+			cc := cl.(*ast.CommClause)
+			end, term := f.walk(cc.Body, ext(pc, &dx{op: "Opaque", s: fmt.Sprintf("select clause %d", i)}))
+			brs = append(brs, decBranch{end, term})
+		}
+		f.brk = f.brk[:len(f.brk)-1]
+		return join(pc, brs)
+	case *ast.ForStmt:
+		if s.Init != nil {
+			pc, _ = f.stmt(s.Init, pc)
+		}
+		body := pc
+		if s.Cond != nil {
+			f.calls(s.Cond, pc)
+			body = ext(pc, f.cond(s.Cond))
+		}
+		f.depth++
+		f.brk = append(f.brk, "loop")
+		f.walk(s.Body.List, body)
+		f.brk = f.brk[:len(f.brk)-1]
+		f.depth--
 	case *ast.RangeStmt:
+		f.calls(s.X, pc)
+		if ok, after := f.searchLoop(s, pc); ok {
+			return after, false
+		}
 		if p, ok := f.path(s.X); ok && p != "" {
 			if id, ok := s.Key.(*ast.Ident); ok && id.Name != "_" {
 				f.env[id.Name] = &decBinding{path: "idx(" + p + ")"}
@@ -1047,38 +2082,31 @@ func (f *decFn) stmt(st ast.Stmt) {
 				f.env[id.Name] = &decBinding{path: "each(" + p + ")"}
 			}
 		}
-		f.block(s.Body.List)
-	case *ast.SwitchStmt:
-		f.stmt(s.Init)
-		var tag *dx
-		if s.Tag != nil {
-			tag = f.tr(s.Tag)
-		}
-		for _, c := range s.Body.List {
-			cc := c.(*ast.CaseClause)
-			if cc.List != nil {
-				f.site("case", cc.Pos(), f.caseCond(tag, cc.List))
-			}
-			f.block(cc.Body)
-		}
-	case *ast.SelectStmt:
-		for _, c := range s.Body.List {
-			f.block(c.(*ast.CommClause).Body)
-		}
-	case *ast.ReturnStmt:
-		for _, r := range s.Results {
-			f.closures(r)
-		}
+		f.depth++
+		f.brk = append(f.brk, "loop")
+		f.walk(s.Body.List, pc)
+		f.brk = f.brk[:len(f.brk)-1]
+		f.depth--
 	case *ast.GoStmt:
-		f.closures(s.Call)
+		f.closures(s.Call, pc)
+		f.calls(s.Call, pc)
 	case *ast.DeferStmt:
-		f.closures(s.Call)
-	case *ast.LabeledStmt:
-		f.stmt(s.Stmt)
+		f.closures(s.Call, pc)
+		f.calls(s.Call, pc)
 	}
+	return pc, false
 }
 
-// assignments per block: a local assigned in two different blocks is not normalised
+func endsWithSwitchBreak(body []ast.Stmt) bool {
+	if len(body) == 0 {
+		return false
+	}
+	br, ok := body[len(body)-1].(*ast.BranchStmt)
+	return ok && br.Tok == token.BREAK && br.Label == nil
+}
+
+// assignments per block: a local assigned in two different blocks is not normalised by
+// substitution (it may become a conditional value, see decValSet)
 func decUnstable(body *ast.BlockStmt) map[string]bool {
 	where := map[string]ast.Node{}
 	out := map[string]bool{}
@@ -1112,8 +2140,13 @@ func decUnstable(body *ast.BlockStmt) map[string]bool {
 						// the error position of a call: latest assignment wins, whatever the block
 						errPos := isCall && len(v.Rhs) == 1 && i == len(v.Lhs)-1
 						if isCall && len(v.Rhs) == 1 {
-							if fid, ok := v.Rhs[0].(*ast.CallExpr).Fun.(*ast.Ident); ok && fid.Name == "append" {
-								errPos = true // x = append(x, …): not a new value
+							if fid, ok := v.Rhs[0].(*ast.CallExpr).Fun.(*ast.Ident); ok {
+								switch fid.Name {
+								case "append":
+									errPos = true // x = append(x, …): not a new value
+								case "len":
+									errPos = false
+								}
 							}
 						}
 						note(id.Name, blk, errPos)
@@ -1124,10 +2157,8 @@ func decUnstable(body *ast.BlockStmt) map[string]bool {
 					out[id.Name] = true
 				}
 			case *ast.ValueSpec:
-				if len(v.Values) > 0 {
-					for _, id := range v.Names {
-						note(id.Name, blk, false)
-					}
+				for _, id := range v.Names {
+					note(id.Name, blk, false)
 				}
 			}
 			return true
@@ -1199,28 +2230,29 @@ func genActionDecisions(repo string) (string, error) {
 	if err != nil {
 		return "", err
 	}
+	for k := range decPkgCache {
+		delete(decPkgCache, k)
+	}
+	for _, tf := range decTracked {
+		for _, fn := range tf.Funcs {
+			decTrackedSet[fn] = true
+		}
+	}
 	var b strings.Builder
 	b.WriteString("From Helm Require Import Engine.Decisions.\n\n")
-	b.WriteString("(* data conditions of the release operations, in source order per function;\n   see harness/cmd/hx/gentables_dec.go and notes/DEC.md *)\n")
+	b.WriteString("(* guarded items of the release operations with their path conditions, and predicates;\n   see harness/cmd/hx/gentables_dec.go and notes/DEC.md *)\n")
 	b.WriteString("Definition decisions : list (string * list (string * dexp)) :=\n  [ ")
 	first := true
 	for _, tf := range decTracked {
-		file, fset, err := parseFile(repo, tf.File)
-		if err != nil {
-			return "", err
-		}
-		decls := map[string]*ast.FuncDecl{}
-		for _, d := range file.Decls {
-			if fd, ok := d.(*ast.FuncDecl); ok && fd.Body != nil {
-				decls[decFuncKey(fd)] = fd
-			}
-		}
+		pkg := decLoadPkg(filepath.Join(repo, filepath.Dir(tf.File)))
 		for _, key := range tf.Funcs {
-			fd := decls[key]
+			fd := pkg.funcs[key]
 			if fd == nil {
 				return "", fmt.Errorf("%s: function %s not found", tf.File, key)
 			}
-			f := &decFn{fset: fset, consts: consts, env: map[string]*decBinding{}, unstable: decUnstable(fd.Body)}
+			var items []*decItem
+			f := &decFn{fset: pkg.fset, consts: consts, pkg: pkg, env: map[string]*decBinding{}, unstable: decUnstable(fd.Body),
+				vs: map[string]*decValSet{}, boolZero: map[string]bool{}, items: &items, results: fd.Type.Results, anyN: map[string]int{}}
 			if fd.Recv != nil && len(fd.Recv.List[0].Names) == 1 {
 				f.recv = fd.Recv.List[0].Names[0].Name
 				f.recvType = lastTypeName(fd.Recv.List[0].Type)
@@ -1244,23 +2276,28 @@ func genActionDecisions(repo string) (string, error) {
 					delete(f.unstable, nm.Name)
 				}
 			}
-			// a small predicate function is one site: its result
-			isPred := fd.Type.Results != nil && len(fd.Type.Results.List) == 1 && lastTypeName(fd.Type.Results.List[0].Type) == "bool"
-			if r := f.result(fd.Body.List); isPred && r != nil {
-				f.site("result", fd.Body.Pos(), r)
-			} else {
-				f.block(fd.Body.List)
+			f.walk(fd.Body.List, nil)
+			// an integer local assigned in several blocks: its value as one conditional expression
+			var vnames []string
+			for n, vs := range f.vs {
+				if !vs.dead && len(vs.vals) > 1 && vs.vals[0].typeOf() == "TN" {
+					vnames = append(vnames, n)
+				}
+			}
+			sort.Strings(vnames)
+			for _, n := range vnames {
+				items = append(items, &decItem{key: "val " + n, line: f.fset.Position(fd.Pos()).Line, alts: []*dx{f.vs[n].expr()}})
 			}
 			if !first {
 				b.WriteString(";\n    ")
 			}
 			first = false
 			fmt.Fprintf(&b, "(%s, (* %s *)\n      [", hx.CoqStr(key), tf.File)
-			for i, s := range f.sites {
+			for i, it := range items {
 				if i > 0 {
 					b.WriteString(";")
 				}
-				fmt.Fprintf(&b, "\n        (* line %d *) (%s, %s)", s.line, hx.CoqStr(s.kind), s.exp.coq())
+				fmt.Fprintf(&b, "\n        (* line %d *) (%s,\n          %s)", it.line, hx.CoqStr(it.key), dOr(it.alts).coq())
 			}
 			b.WriteString(" ])")
 		}
